@@ -3,11 +3,16 @@
    of that plug at that station, 0 for a free plug) and applies it to the vehicle (energy via add_energy, balance - price),
    the station (balance + price, energy_dispensed + kwh) and the Charge event in one state update; the vehicle pays
    exactly what the station receives; a pickup credits request.value (C03_pickup_once).
-   PARTIAL: the sums over whole histories are decided by correspondence + the Ledger monitor. *)
+   Over whole histories (C05_books_over_histories, macro frame theorem; any controller; from a loaded state with nothing filed
+   yet): every vehicle's balance = its initial balance + the fares of the pickup events naming it - the prices of its charge
+   events, and its energy_gained grew by the energies of its charge events; every station's balance grew by the prices of the
+   charge events at that station and its energy_dispensed, per energy type, by their energies.  So what vehicles paid /
+   gained and what stations received / dispensed are the SAME event sums.
+   PARTIAL: the regrouping of the per-entity sums into fleet totals is not stated as a theorem (Ledger monitor). *)
 From Hive.Base Require Import Prelude.
 From Hive.Model Require Import Types KernelBase SimOps States Step.
 From Hive.Gen Require Import Kernels.
-From Hive.Proofs Require Import Trip Energy.
+From Hive.Proofs Require Import Trip Energy VehFrame Macro CountInv AcctInv.
 Local Open Scope Q_scope.
 
 Theorem C05_charge_ledger : forall env s vid sid cid s', charge env s vid sid cid = Ok s' ->
@@ -33,5 +38,21 @@ Proof. exact bev_add_energy_spec. Qed.
 Theorem C05_gained_is_added_ice : forall m v c t, (0 <= t)%Z -> 0 <= c_rate c -> v_energy v <= m_cap m ->
   add_spec m v c t (fst (ice_add_energy m v c t)).
 Proof. exact ice_add_energy_spec. Qed.
+Theorem C05_books_over_histories : forall env ops s0, vkeys s0 -> skeys (stations s0) -> Forall op_ok ops -> log s0 = [] ->
+  let s := fold_left (step_op env) ops s0 in
+  (forall k v0, find k (vehicles s0) = Some v0 -> exists v, find k (vehicles s) = Some v /\
+     (v_balance v == v_balance v0 + total ev_fare (log s) k - total ev_paid (log s) k)%Q /\
+     (v_gained v == v_gained v0 + total ev_charged (log s) k)%Q) /\
+  (forall k x0, find k (stations s0) = Some x0 -> exists x, find k (stations s) = Some x /\
+     (s_balance x == s_balance x0 + total ev_recv (log s) k)%Q /\
+     (s_disp_e x == s_disp_e x0 + total (ev_disp Electric) (log s) k)%Q /\
+     (s_disp_g x == s_disp_g x0 + total (ev_disp Gasoline) (log s) k)%Q).
+Proof.
+  intros env ops s0 K SK O L. destruct (books_over_histories env ops s0 K SK O L) as [V S]. cbv zeta. split.
+  - intros k v0 F. destruct (V k v0 F) as (v & Fv & (_ & G & B)). eauto.
+  - intros k x0 F. destruct (S k x0 F) as (x & Fx & A). eauto.
+Qed.
+Print Assumptions C05_books_over_histories.
+
 Print Assumptions C05_charge_ledger. Print Assumptions C05_payment_conserved.
 Print Assumptions C05_gained_is_added_bev. Print Assumptions C05_gained_is_added_ice.
